@@ -545,6 +545,8 @@ func (m *Manager) PruneBlocks(height uint64) {
 	m.mu.Lock()
 	defer m.mu.Unlock()
 
+	// nothing exists above the tip; start from the highest prunable block
+	height = min(height, m.tipState.Index.Height+1)
 	for h := height; h > 0; h-- {
 		index, ok := m.store.BestIndex(h - 1)
 		if !ok {
